@@ -3,6 +3,7 @@ pub mod checks {
     use super::gen::*;
     use super::kjson::*;
     use super::mirror::*;
+    use super::print;
     use crate::parser::model::*;
     use crate::query::queryable::Queryable;
     use crate::query::state::{Data, Pointer, State};
@@ -209,6 +210,85 @@ pub mod checks {
                 }
             }
         }
+        rep
+    }
+
+    // ---------------------------------------------------------------- through the parser: js_path(print(ast), doc) vs rfc_query(ast, doc)
+    // Bounded stand-in for the AST construction in src/parser.rs (pest Pair code is out of both verifiers' reach):
+    // the query TEXT printed from an AST must evaluate to what the RFC says about that AST.
+    pub fn text_queries(name: &str, tier: &str, seed: u64) -> Vec<JpQuery> {
+        let mut rng = Rng(seed.wrapping_mul(0x2545F4914F6CDD1D) | 1);
+        let mut out = vec![];
+        if name == "text_arith" {
+            // every slice / index over a small range incl. explicit 0, absent parts, negative steps
+            let mut opts: Vec<Option<i64>> = vec![None];
+            opts.extend((-3..=3).map(Some));
+            for a in &opts { for b in &opts { for c in &opts { out.push(JpQuery::new(vec![Segment::Selector(Selector::Slice(*a, *b, *c))])); } } }
+            for i in -7..=7 { out.push(JpQuery::new(vec![Segment::Selector(Selector::Index(i))])); }
+            for i in [9007199254740991i64, -9007199254740991] {
+                out.push(JpQuery::new(vec![Segment::Selector(Selector::Index(i))]));
+                out.push(JpQuery::new(vec![Segment::Selector(Selector::Slice(Some(i), Some(-i), Some(1)))]));
+                out.push(JpQuery::new(vec![Segment::Selector(Selector::Slice(None, None, Some(i)))]));
+            }
+        } else {
+            let a = atoms();
+            let mut fs = filters(&mut rng, if tier == "thorough" { 400 } else { 150 });
+            // explicit negation / parenthesis / precedence shapes over every pair of the first atoms
+            let neg = |f: &Filter| Filter::Atom(FilterAtom::Filter { expr: Box::new(f.clone()), not: true });
+            let par = |f: &Filter| Filter::Atom(FilterAtom::Filter { expr: Box::new(f.clone()), not: false });
+            for x in a.iter().take(12) {
+                fs.push(neg(x)); fs.push(neg(&neg(x))); fs.push(par(x)); fs.push(neg(&par(&neg(x))));
+                for y in a.iter().take(6) {
+                    fs.push(neg(&Filter::Or(vec![neg(x), neg(y)])));
+                    fs.push(neg(&neg(&Filter::Or(vec![x.clone(), y.clone()]))));
+                    fs.push(Filter::Or(vec![x.clone(), Filter::And(vec![y.clone(), neg(x)])]));
+                    fs.push(Filter::And(vec![par(&Filter::Or(vec![x.clone(), y.clone()])), neg(y)]));
+                }
+            }
+            for f in fs {
+                let s = Segment::Selector(Selector::Filter(f));
+                out.push(JpQuery::new(vec![s.clone()]));
+                out.push(JpQuery::new(vec![Segment::Selector(Selector::Wildcard), s]));
+            }
+        }
+        out
+    }
+    pub fn group_text(name: &str, tier: &str, seed: u64, only: Option<(usize, usize)>) -> Report {
+        let mut rep = Report::new(name);
+        let ds: Vec<Value> = if name == "text_arith" { (0..=5).map(|n| Value::Array((0..n).map(|i| json!(i)).collect())).collect() }
+                             else { docs(if tier == "thorough" { 200 } else { 30 }, seed) };
+        let qs = text_queries(name, tier, seed);
+        let stride = if tier == "thorough" || name == "text_arith" { 1 } else { 5 };
+        let mut rejected = 0u64;
+        for (qi, q) in qs.iter().enumerate() {
+            let text = print::query(q);
+            for (di, d) in ds.iter().enumerate() {
+                if let Some((a, b)) = only { if (qi, di) != (a, b) { continue; } } else if (qi + di) % stride != 0 && di >= 12 { continue; }
+                rep.evaluations += 1;
+                let c = Ctx::new(d);
+                let want: Vec<(usize, String)> = c.query(q).into_iter().map(|n| (n.v as *const Value as usize, n.path)).collect();
+                let mut feats = features(&q.segments, d);
+                if !c.union_multi.get() { feats.retain(|f| f != "multi-selector-segment"); }
+                let w = |extra: Value| json!({"text": text, "query": show(q), "doc": d, "qi": qi, "di": di, "detail": extra});
+                match catch_unwind(AssertUnwindSafe(|| js_path(&text, d))) {
+                    Err(_) => rep.fail(&format!("{}.no_panic", name), &feats, w(json!("panic"))),
+                    // a printed query the parser rejects is a C06 matter (not applicable here): counted, not reported
+                    Ok(Err(_)) => { rejected += 1; }
+                    Ok(Ok(v)) => {
+                        if !want.is_empty() || !v.is_empty() { rep.nontrivial += 1; }
+                        let got: Vec<(usize, String)> = v.iter().map(|r| (r.clone().val() as *const Value as usize, r.clone().path())).collect();
+                        let (mut gi, mut wi): (Vec<usize>, Vec<usize>) = (got.iter().map(|x| x.0).collect(), want.iter().map(|x| x.0).collect());
+                        let same = gi == wi;
+                        gi.sort(); wi.sort();
+                        let det = json!({"observed": got.iter().map(|x| &x.1).collect::<Vec<_>>(), "expected": want.iter().map(|x| &x.1).collect::<Vec<_>>()});
+                        if gi != wi { rep.fail(&format!("{}.members", name), &feats, w(det)); }
+                        else if !same { rep.fail(&format!("{}.order", name), &feats, w(det)); }
+                        if rep.samples.len() < 4 && !want.is_empty() && rep.evaluations % 211 == 1 { rep.samples.push(json!({"text": text, "doc": d, "result": want.iter().map(|x| &x.1).collect::<Vec<_>>()})); }
+                    }
+                }
+            }
+        }
+        rep.samples.push(json!({"printed_queries_rejected_by_the_parser_not_reported": rejected}));
         rep
     }
 
